@@ -642,6 +642,15 @@ def run_more_name_rules(chk, spec):
 					if o.ok and o.value.column_names()[:len(over)] != list(over):
 						chk.fail("aggregate and window name their outputs after the key names", f"names/{op}/key-names/unsanitisable-label", f"{spec!r}: over={over!r}: key columns named {o.value.column_names()[:len(over)]!r}")
 						return
+		elif what == "join-onto-emptied-right":
+			# a left / full join whose right table has columns but no rows left: every left row comes back padded, under left names then right names
+			how, emptied = spec["variant"].split("/")
+			L = Table({"k": [1, 2], "a": [7, 8]})
+			R0 = Table({"r": [1, 2], "x": [5, 6], "y": ["p", "q"]})
+			R = {"mask": lambda: R0[[False, False]], "slice": lambda: R0[0:0], "filter": lambda: R0[R0["r"] > 99], "ctor": lambda: Table({"r": [], "x": [], "y": []})}[emptied]()
+			o = call({"left": L.join, "full": L.full_join}[how], R, "k", "r", expect="many_to_one")
+			if o.ok and len(o.value) and o.value.column_names() != ["k", "a", "r", "x", "y"]:
+				chk.fail("joined tables keep each source column's stored name in order", f"names/join/right-columns-lost/{how}/{emptied}", f"{spec!r}: {o.value.column_names()!r}")
 		elif what == "keyword-labels":
 			# a column whose label is a Python keyword: its sanitised name is the keyword itself (keywords are no Vector / Table attributes), whatever was printed before
 			kw = spec["variant"]
@@ -730,7 +739,7 @@ def gen_agg_names_spec(rng):
 def run(chk):
 	for what, variants in (("fold-letters", ["strasse", "long-s", "fi", "capital-sharp-s", "dotless-i", "plain"]), ("selection-rename-local", ["t[:, name]", "t[:, j]", "t[name, :]", "t[0:3, name]", "t[:, (name,)]", "t[mask][name]"]),
 			("spelled-key-after-view-rename", ["untouched", "touched-first"]), ("nested-apply-names", ["aggregate-same-table", "window-same-table", "aggregate-other-table", "window-other-table"]), ("empty-typed-arithmetic", ["mask", "slice", "float-column", "typed-ctor", "sorted-empty"]),
-			("join-after-right-rename", [f"{h}/{r}" for h in ("left", "inner", "full") for r in ("rename_column", "rename_columns", "handle", "key-handle", "left-handle")]), ("column-names-after-handle-rename", [f"{w}/{r}" for w in ("first", "second") for r in ("getattr", "dir", "row", "iterate", "cell-write", "repr", "nothing")]), ("unsanitisable-key-labels", ["%", "#", " ", "--", "!?", "\u00e9\u00e9"]), ("keyword-labels", ["in", "class", "import", "lambda", "None", "is", "Not", "async"]), ("copy-new-values", ["vector", "column", "float", "str"]), ("fillna-keeps-name", ["int<-float", "int<-complex", "float<-complex", "date<-datetime", "same-kind", "column"])):
+			("join-after-right-rename", [f"{h}/{r}" for h in ("left", "inner", "full") for r in ("rename_column", "rename_columns", "handle", "key-handle", "left-handle")]), ("column-names-after-handle-rename", [f"{w}/{r}" for w in ("first", "second") for r in ("getattr", "dir", "row", "iterate", "cell-write", "repr", "nothing")]), ("unsanitisable-key-labels", ["%", "#", " ", "--", "!?", "\u00e9\u00e9"]), ("join-onto-emptied-right", [f"{h}/{e}" for h in ("left", "full") for e in ("mask", "slice", "filter", "ctor")]), ("keyword-labels", ["in", "class", "import", "lambda", "None", "is", "Not", "async"]), ("copy-new-values", ["vector", "column", "float", "str"]), ("fillna-keeps-name", ["int<-float", "int<-complex", "float<-complex", "date<-datetime", "same-kind", "column"])):
 		for variant in variants:
 			chk.case("more_name_rules", {"what": what, "variant": variant}, "more-name-rules")
 	for op in ("aggregate", "window"):
